@@ -57,8 +57,8 @@ PROPS = {
                      'EGraph struct projected onto the fields the verified functions use'],
     ),
     'C05': dict(
-        units=['merge', 'insert'],
-        replay_units=['tablepaths'],
+        units=['merge', 'insert', 'driver'],
+        replay_units=['tablepaths', 'apiupdate'],
         kani_quick=[],
         kani_thorough=['combine_subsumed_algebra', 'schema_math_layout', 'write_table_row_vec', 'id_axioms_u32'],
         design_ref='DESIGN.md section 4 (U-MIN, U-MERGE) and section 5 C05',
@@ -70,7 +70,7 @@ PROPS = {
                    'max of the flags; (c) min/max are ACI so the fold over writes is order independent; (d) (unit insert) the real SortedWritesTable::serial_insert applies the merge '
                    'callback on EVERY collision of the serial path: the final table is the initial one with each pending row applied in turn (chain/applied): key absent -> the row is stored; '
                    'key present -> the stored row is replaced by the MERGED row iff the callback reports a change, and nothing else changes; (e) StagedOutputs::insert (the in-batch staging path used by the parallel insert) does the same for one row, '
-                   'through the hashbrown entry API, and keeps n_stale equal to the number of superseded rows. parallel_insert itself (which decides what to do with the staged batches; see F2) is NOT covered: assumed. '
+                   'through the hashbrown entry API, and keeps n_stale equal to the number of superseded rows. parallel_insert itself (which decides what to do with the staged batches; see F2) is NOT covered: assumed; (f) (unit driver, clauses tagged [only: C05]) a :no-merge conflict raises an error from the command that caused it: bridge run_rules_inner returns Ok only when no panic message is left unread, also for conflicts created by the rebuild; flush_updates_inner (the Rust-API write path) does NOT read the side channel: known finding F4. '
                    'Rebuild re-insertion stages remove + insert and so goes through these same paths at the next merge (the staging in table/rebuild.rs is not under contract).',
         level_note='Trusted: ExecutionState::{stage_insert, call_external_func, read_counter} as ghost logs; external functions and '
                    'TableAction::lookup_or_insert as functions of their arguments; SchemaMath::write_table_row (generic impl-Trait code; assumed contract); '
